@@ -67,6 +67,9 @@ class MinuitFitter(Fitter):
 
         """
         self.minuit.migrad()
+        # The cost function leaves the last trial point in theory.parameters,
+        # which is not the minimum: copy the best-fit values over.
+        self.theory.parameters.update(self.minuit.values.to_dict())
         self.covsync()
 
     # The following methods keep status of parameters (fixed, limits)
